@@ -3,7 +3,7 @@ from lib import *
 from hist import *
 
 RULE = ("random trees x random Add orders that build them (any interleaving respecting parent-before-child, repeated Adds of "
-        "existing names injected at any point) x options shared by both families (branch strings, JSON/YAML/TOML, walk with a "
+        "existing names and From-Root calls injected at any point) x options shared by both families (branch strings, JSON/YAML/TOML, walk with a "
         "failing callback, iterator walk with break; mkdir / dry-run / verify in a jail) x {current, deprecated} entry points; "
         "plus nil and non-root arguments. Predicate: From-Root result == From-Markdown result on a spelling of the same tree "
         "(both from the implementation). non-trivial = tree with >= 3 nodes")
@@ -42,6 +42,9 @@ def random_build(rng, items):
             ready.append(kids[p][pos[p]])
         if i in kids:
             ready.append(kids[i][0])
+        # an incrementally built tree: a From-Root call between two Adds must not influence the later result
+        if rng.random() < 0.12:
+            ops.append(rng.choice(["O,0,d,0,-,-,-,-,-", "O,0,j,0,-,-,-,-,-", "W,0,-,-,-,-,-"]))
         # duplicate Add of an existing name under a random already built parent
         if rng.random() < 0.25:
             built = [j for j in handle if j != 0]
@@ -127,7 +130,7 @@ def run(ck, rng):
             if parts[-1] != "err:not_root -":
                 bad = "non-root node: got " + parts[-1][:100]
         elif kind == "idem":
-            outs = [p for p in parts if p.startswith("ok t")]
+            outs = [p for p in parts if p.startswith("ok t")][-2:]
             if len(outs) != 2 or outs[0] != outs[1]:
                 bad = "re-adding existing names changed the tree"
         if bad:
